@@ -14,7 +14,12 @@ class _NoInline(Policy):
         if "operators::Operator" in p or p.endswith("::make") or p.endswith("make_partial_derivative_ops"):
             return False
         b = interp.callee_body(fn)
-        return b is not None and len(b["blocks"]) <= 60
+        if b is None:
+            return False
+        # a helper that builds a part of the table (returns operators) is part of the constructor, whatever its size
+        if "operators::Operator<" in b["locals"][0]["ty"] or "PartialDerivative<" in b["locals"][0]["ty"]:
+            return True
+        return len(b["blocks"]) <= 60
 
 
 def _single_path(fb, body):
